@@ -77,6 +77,11 @@ Definition run_elements (b : bpseq) (db : list ascii) : val :=
       vlist vstrand (el_hairpins e);
       vlist (vlist vstrand) (el_loops e)].
 
+(* for every unpaired nucleotide, the number of reported strands that have it in their interior *)
+Definition run_cover_counts (b : bpseq) (db : list ascii) : val :=
+  let e := elements b db in
+  vlist (fun k => VL [vnat k; vnat (times_covered e k)]) (filter (fun k => pair_at b k =? 0) (seq 1 (length b))).
+
 Definition vbpseq (b : bpseq) : val := vlist ventry b.
 Definition run_without_isolated (b : bpseq) : val := vbpseq (without_isolated b).
 Definition run_without_pk (b : bpseq) (db : list ascii) : val := vres vbpseq (without_pseudoknots_of b db).
